@@ -60,6 +60,12 @@ func VH_C07_tn93() {
 	BS := vBaseSetTable()
 	SG := vSingleTable()
 	qt := vSymText("q", 0, W)
+	if vParam("QPREFIX") == 1 {
+		// cheaper variant: the query's first P symbols range over ACGTN only
+		for i := 0; i < P && i < W; i++ {
+			vAssume(vOr(vOr(qt[i] == 'A', qt[i] == 'C'), vOr(vOr(qt[i] == 'G', qt[i] == 'T'), qt[i] == 'N')))
+		}
+	}
 	tt := make([]byte, W)
 	for i := 0; i < W; i++ {
 		if i < P {
